@@ -84,7 +84,7 @@ TABLE = {
         "a tensor first referenced with zero indexes and later with one or more (B() + B(i))", "C12 invalid-assignment-accepted"),
     "S4-C13-pos-shrink-live": ("C13", "independent sub-agent (round 4)",
         "sds-like output with enough stored entries that the shrunk pos block is smaller than what is read back",
-        "C02 unreadable-pos-short / C05 handed-back-pos-short (the array is too short for the structure it describes); C13's own histories use outputs of order <= 1"),
+        "C02 unreadable-pos-short / C05 handed-back-pos-short (the array is too short for the structure it describes); C13 was silent at first (outputs of order <= 1); after the sds output kind and the live-extent check were added it reports it too (process dies reading the shrunk array)"),
     "S4-C14-recent-request-memo": ("C14", "independent sub-agent (round 4)",
         "two threads calling evaluate / operators with different requests, at least one repeating its own request, a GIL switch inside the memo's key computation",
         "C14 operator hammer rounds (different requests repeated by 16 threads at a 1 us switch interval)"),
